@@ -701,7 +701,28 @@ func c19PickCase(e *env, r *rng, n int) {
 		}
 	}
 	var s1, s2, s3 cache.MemcachedJumpHashSelector
-	if err := s1.SetServers(sh1...); err != nil {
+	// The placement must be a function of the LAST list only: half of the cases give s1 a history —
+	// an earlier, different list of the same length passed in a buffer that the caller then reuses and
+	// edits in place for the final call (what a DNS-refresh loop does), and s3 an earlier shorter list.
+	if r.chance(1, 2) {
+		prev, _ := c19ServerFamily(r, n)
+		if r.chance(1, 2) { // differs from the final list in one position only
+			prev = append([]string(nil), sh1...)
+			other, _ := c19ServerFamily(r, 1)
+			prev[r.intn(len(prev))] = other[0]
+		}
+		buf := append([]string(nil), prev...)
+		if err := s1.SetServers(buf...); err != nil {
+			panic(err)
+		}
+		copy(buf, sh1)
+		if err := s1.SetServers(buf...); err != nil {
+			panic(err)
+		}
+		if err := s3.SetServers(sh2...); err != nil {
+			panic(err)
+		}
+	} else if err := s1.SetServers(sh1...); err != nil {
 		panic(err)
 	}
 	if err := s2.SetServers(sh2...); err != nil {
